@@ -22,7 +22,8 @@ BUDGET = {"quick": dict(examples=400, workers=12, seconds=80), "thorough": dict(
 def chunk_specs(draw, thorough):
     fmt = draw(st.sampled_from(["fasta", "fasta", "msf", "clu"]))
     ch = {"fmt": fmt, "seed": draw(st.integers(0, 2 ** 16))}
-    ch["gapmode"] = draw(st.sampled_from(["none", "random", "aligned"])) if fmt == "fasta" else "aligned"
+    ch["gapmode"] = draw(st.sampled_from(["none", "random", "aligned", "tail"])) if fmt == "fasta" else "aligned"
+    ch["tailmix"] = draw(st.booleans())
     ch["gapfrac"] = draw(st.sampled_from([0.05, 0.3, 0.6, 0.85, 0.95]))
     ch["eol"] = draw(st.sampled_from(["\n", "\n", "\r\n"]))
     ch["final_eol"] = draw(st.sampled_from([True, True, True, False]))
